@@ -15,6 +15,7 @@ mod gen;
 mod model;
 mod props;
 mod rng;
+mod session;
 mod util;
 mod wire;
 mod act;
